@@ -18,7 +18,7 @@ use crate::props::gcase::{gcase, GCase};
 use crate::runner::{guarded, CheckResult, EnumJob, Env, Job, JobReport, Outcome, PropJob};
 use crate::util::{canon, is_pal, rc, splitmix, to_ascii, Seq};
 
-pub const RULE: &str = "case = finished graph built from a generated read set (all K types, stranded/unstranded, thresholds, three entry points) plus a 64-bit value that drives probes; checks: every node x side x base through find_link/edges against the string-level acceptable-answer set (landing node, arrival side, flip), edge lists = resolved extension bits in base order, symmetry (palindromic single-k-mer nodes: either side), W_total(graph) = (K+1)-mers between retained k-mers of the reads/table, node extension bytes = table extensions of the terminal k-mers, find_link for terminal k-mers, their reverse complements, 1-mismatch neighbours and random k-mers, random walks + max_path + max_path_beam spelled by sequence_of_path against model spelling with K-1 overlaps and no repeated node in max_path, get_valid_exts/fix_exts under random node bitsets. Separate jobs: remove_censored_exts and remove_censored_exts_sharded under random censor subsets against the model filter, bit for bit. Non-trivial = graph has >= 1 resolvable edge (pruning: >= 1 extension removed and >= 1 kept).";
+pub const RULE: &str = "case = finished graph built from a generated read set (all K types, stranded/unstranded, thresholds, three entry points) plus a 64-bit value that drives probes; checks: every node x side x base through find_link/edges against the string-level acceptable-answer set (landing node, arrival side, flip), edge lists = resolved extension bits in base order, symmetry (palindromic single-k-mer nodes: either side), W_total(graph) = (K+1)-mers between retained k-mers of the reads/table, node extension bytes = table extensions of the terminal k-mers, find_link for terminal k-mers, their reverse complements, 1-mismatch neighbours and random k-mers, random walks + max_path + max_path_beam spelled by sequence_of_path against model spelling with K-1 overlaps and no repeated node in max_path, get_valid_exts/fix_exts under random node bitsets. Fixed extra jobs: a k-mer observed more than 65 535 times whose last observations bring a new adjacency (both shipped summarizers are run and must agree on keys and extensions in every graph pipeline). Separate jobs: remove_censored_exts and remove_censored_exts_sharded under random censor subsets against the model filter, bit for bit. Non-trivial = graph has >= 1 resolvable edge (pruning: >= 1 extension removed and >= 1 kept).";
 pub const TECHNIQUE: &str = "seeded proptest over graphs x probes against a string-level adjacency model (acceptable-answer sets, (K+1)-mer set equality, walk spelling)";
 
 fn link_of(l: (usize, Dir, bool)) -> Link {
